@@ -636,7 +636,7 @@ Definition dec_kress (j : J) : option (list (Z * list float)) :=
 
 Definition check_qh (input output : J) : verdict :=
   match input, output with
-  | JL [JS comb; JF c; JL jsegs; jqs; JI parts; JI fan; JI den],
+  | JL [JS comb; JF c; JL jsegs; jqs; JI parts; JI fan; JI den; JS _],
     JL [JS okt; JL [jcg; jcgl; jcv; jgbkl; jcvl]] =>
       match omap dec_seg jsegs, jfs jqs, jfs jcg, jfs jcgl, dec_kress jcv, dec_kress jgbkl,
             dec_kress jcvl with
